@@ -15,6 +15,16 @@ def fuzz(pkg, run, t="45s"):
     return {"pkg": pkg, "run": run, "kind": "fuzz", "tiers": ("thorough",), "fuzztime": {"thorough": t}}
 
 CHECKS = {
+    "C07": {
+        "level": "exploration",
+        "assumptions": ["the reference evaluator implements standard boolean/comparison semantics with Go operator precedence", "an implicit status counts as 200 for ResponseCode()", "handlers that declare a Content-Length declare the true one"],
+        "jobs": [
+            {"pkg": "props/c07", "run": "^TestC07_Regression$", "kind": "plain"},
+            rapid("props/c07", "^TestC07_InProcess$", 4000, 40000, shards_t=8),
+            rapid("props/c07", "^TestC07_RealServer$", 300, 3000, shards_t=6),
+            fuzz("props/c07", "FuzzC07_Expr", "45s"),
+        ],
+    },
     "C06": {
         "level": "exploration",
         "assumptions": ["the in-process variant presents a chunked request exactly as net/http's server does (ContentLength -1, TransferEncoding [chunked]); the real-server variant checks that with real framing", "ground truth is a snapshot of the request taken right before the buffer"],
@@ -113,6 +123,11 @@ CHECKS = {
 
 # Texts for MANIFEST.json (level text, trusted base, technique) per claimed property.
 MANIFEST_TEXT = {
+    "C07": {
+        "level": "Generated per-attempt handler scripts (explicit/implicit status, header sets, body write chunking incl. no write, optional true Content-Length) and generated retry expressions from the grammar are run through the buffer into an event-recording writer (and, for a share, a real server and client); an independent evaluator predicts the number of invocations (capped at 11) and the client record must be exactly the final attempt's status, header multiset and bytes, with nothing from discarded attempts. A coverage-guided target drives the same oracle in the thorough tier. Exploration.",
+        "note": "Trusts the reference expression evaluator and the recording ResponseWriter (which follows net/http semantics: first WriteHeader/Write fixes the head, WriteHeader(0) panics).",
+        "technique": "grammar-based property testing (rapid) + native fuzzing against a reference evaluator and an exact response-record oracle",
+    },
     "C06": {
         "level": "Round-trip property over generated requests (method, target, header sets with repeated names, body sizes placed on both sides of the memory threshold up to multi-MiB, declared or chunked framing incl. the empty chunked body and generated chunk sizes through a raw socket), generated thresholds and generated retry scripts in which each failed attempt reads a prefix of the body and mutates the request it was handed; every attempt is compared with a snapshot of the client's request and with the body bytes from offset 0. Exploration.",
         "note": "Trusts the snapshot taken before the buffer and Go's HTTP server parsing in the real-server variant.",
